@@ -111,6 +111,31 @@ func runC20(c *Cfg) {
 		}
 		return
 	}
+	if strings.HasPrefix(c.Replay, "lex:") {
+		// generator tuning: run n packages of the lexical-reference family in process
+		var n int
+		fmt.Sscan(strings.TrimPrefix(c.Replay, "lex:"), &n)
+		nf, nrm, nskip := 0, 0, 0
+		for _, cs := range c20LexCases(c20LexRng(c), n) {
+			res := c20CheckPkgOpts(cs.pkg, c20Opts{perDecl: true})
+			if res.skipped != "" {
+				nskip++
+				fmt.Printf("SKIPPED %s %v\n%s\n", res.skipped, res.loadErr, cs.pkg.String())
+			}
+			if len(res.removed)+len(res.replaced) > 0 {
+				nrm++
+			}
+			if len(res.fails) > 0 {
+				nf++
+				fmt.Printf("FAIL %s\n%s== trimmed\n%s", cs.origin, cs.pkg.String(), res.trimmed.String())
+				for _, f := range res.fails {
+					fmt.Printf("  %s [%s]: %s\n", f.class, f.sem, f.what)
+				}
+			}
+		}
+		fmt.Printf("cases=%d failing=%d with-removals=%d skipped=%d\n", n, nf, nrm, nskip)
+		return
+	}
 	if strings.HasPrefix(c.Replay, "worker:") {
 		c20Worker(strings.TrimPrefix(c.Replay, "worker:"))
 		return
@@ -133,10 +158,20 @@ func runC20(c *Cfg) {
 	fam("writeback", func() {
 		c20RunCases(c, c20WriteBackCases(root.Sub(), c.Pick(100, 600), c.Thorough()), !c.Focus)
 	})
+	// (own stream: the other families keep the inputs they had before this one was added)
+	fam("lexref", func() {
+		n := c.Pick(168, 3000)
+		if c.Focus {
+			n = c.Pick(600, 3000)
+		}
+		c20RunCases(c, c20LexCases(c20LexRng(c), n), !c.Focus)
+	})
 	if !c.Focus {
 		fam("cli", func() { c20CLI(c, root.Sub()) })
 	}
 }
+
+func c20LexRng(c *Cfg) *Rng { return NewRng(c.Seed ^ 0x6c65787265663230).Sub() }
 
 func c20CPU() time.Duration {
 	var self, kids syscall.Rusage
